@@ -127,8 +127,15 @@ def EFF_SPECS():
 
 
 class SvVal:
-    def __init__(self, off, ln):
-        self.off, self.len, self.ty = off, ln, SV
+    """`std::string_view(p, n)`: the cursor `off` (a Lean name, the only part that changes) and the text of the
+    immutable end `p + n`; the length is derived (`end - off`), so that a shrinking view and a byte counter
+    have the same canonical loop state: one offset"""
+    def __init__(self, off, end):
+        self.off, self.end, self.ty = off, end, SV
+
+    @property
+    def len(self):
+        return "(%s - %s)" % (self.end, self.off)
 
 
 class ObjVal:
@@ -490,10 +497,10 @@ class EFn(C.Fn):
                 def upd(v):
                     if v.ty.kind != "int":
                         fail("remove_prefix argument")
-                    o, l = self.fresh(b.off), self.fresh(b.len)
-                    self.env[did] = SvVal(o, l)
-                    # TRUSTED: remove_prefix(k), k <= size(): the view starts k bytes later and is k bytes shorter
-                    return "%slet %s : Int := %s + %s\n%slet %s : Int := %s - %s\n%s" % (pad, o, b.off, v.s, pad, l, b.len, v.s, nxt())
+                    o = self.fresh(b.off)
+                    self.env[did] = SvVal(o, b.end)
+                    # TRUSTED: remove_prefix(k), k <= size(): the view starts k bytes later and ends where it ended
+                    return "%slet %s : Int := %s + %s\n%s" % (pad, o, b.off, v.s, nxt())
                 return self.ex(kids(e)[1], upd)
             if isinstance(b, ObjVal) and me.get("name") == "Tick" and len(kids(e)) == 1:
                 self.use("Clocked_Tick")
@@ -564,9 +571,9 @@ class EFn(C.Fn):
             p, ln = self.expr(kids(e)[0]), self.expr(kids(e)[1])
             if p.ty != PTR or ln.ty.kind != "int":
                 fail("string_view(%r, %r)" % (p.ty, ln.ty))
-            o, l = self.fresh(d.get("name") + "_off"), self.fresh(d.get("name") + "_len")
-            self.env[did] = SvVal(o, l)
-            return "%slet %s : Int := %s\n%slet %s : Int := %s\n%s" % (pad, o, p.s, pad, l, ln.s, nxt())
+            o = self.fresh(d.get("name") + "_off")
+            self.env[did] = SvVal(o, "(%s + %s)" % (p.s, ln.s))
+            return "%slet %s : Int := %s\n%s" % (pad, o, p.s, nxt())
 
         def bound(v):
             if t is not None and t != v.ty:
@@ -649,7 +656,7 @@ class EFn(C.Fn):
     def comps(self, b):
         """lean variable names a binding consists of"""
         if isinstance(b, SvVal):
-            return [b.off, b.len]
+            return [b.off]
         if isinstance(b, ObjVal):
             return [b.fields[f] for f in OBJ_FIELDS]
         if isinstance(b, Val):
@@ -683,7 +690,7 @@ class EFn(C.Fn):
         for i in margs:
             b = outer_env[i]
             if isinstance(b, SvVal):
-                nb = SvVal(self.fresh(b.off), self.fresh(b.len))
+                nb = SvVal(self.fresh(b.off), b.end)
             elif isinstance(b, ObjVal):
                 # only `now` can change (Tick); `deadline` stays what it is
                 nb = ObjVal(b.fields)
@@ -744,22 +751,27 @@ class EFn(C.Fn):
                 self.env = saved
                 return "    if %s then\n%s\n    else\n%s" % (as_prop(c), th, el)
             text = self.ex(cond, whole)
-        # fixed arguments: everything visible at the loop head that the text mentions and the loop does not change
+        # fixed arguments, canonical: ALL parameters of the function and ALL locals visible at the loop head that the
+        # loop does not change, in declaration order, whether the loop mentions them or not (so that restructuring
+        # the loop does not change its signature)
         fixed = []
         formals = set(formal_args())
         for nm, _ty in self.params_lean:
-            if nm not in formals and re.search(r"(?<![A-Za-z0-9_.])%s(?![A-Za-z0-9_])" % re.escape(nm), text):
+            if nm not in formals:
                 fixed.append((nm, _ty))
         for i, b in outer_env.items():
-            for nm in self.comps(b) if not isinstance(b, str) else []:
+            if isinstance(b, str) or str(i).startswith("tmp:"):
+                continue
+            for nm in self.comps(b):
                 if nm in formals or any(nm == f for f, _ in fixed):
                     continue
                 if i in margs and not isinstance(b, ObjVal):
                     continue
                 if isinstance(b, ObjVal) and i in margs and nm == b.fields["now"]:
                     continue
-                if re.search(r"(?<![A-Za-z0-9_.])%s(?![A-Za-z0-9_])" % re.escape(nm), text):
-                    fixed.append((nm, "Bool" if isinstance(b, Val) and b.ty == BOOL else "Int"))
+                if not re.match(r"^[A-Za-z_][A-Za-z0-9_]*$", nm):
+                    continue
+                fixed.append((nm, "Bool" if isinstance(b, Val) and b.ty == BOOL else "Int"))
         fixed_call = " ".join(nm for nm, _ in fixed)
         text = text.replace(FIXED + " ", (fixed_call + " ") if fixed_call else "").replace(FIXED, fixed_call)
         fa = formal_args()
